@@ -272,7 +272,19 @@ def thread_kind(exp, obs):
         if not (cls.startswith('Failed') or cls in ('KeywordError', 'ParseError', 'HeartDied')):
             slug = '-'.join(''.join(ch if ch.isalnum() else ' ' for ch in str(obs.get('msg', ''))).split()[:6])
             return f'raises:{cls}:{slug}'
+    if obs != exp and _without_unset(exp) == _without_unset(obs):
+        # same tree except that keys/fields the grammar defines but the input did not set
+        # (value None or []) are absent or present
+        return 'defined-but-unset-keys-differ'
     return diffkind(exp, obs)
+
+
+def _without_unset(r):
+    if isinstance(r, dict):
+        return {k: _without_unset(v) for k, v in r.items() if v is not None and v != []}
+    if isinstance(r, list):
+        return [_without_unset(x) for x in r]
+    return r
 
 
 def judge(acc, cfg, obs, prop, origin):
